@@ -5,8 +5,8 @@ From SyModel Require Import Engine.
 From SyProofs Require Import Engine_proofs.
 Import ListNotations.
 
-Theorem C08_dry_run_changes_nothing : forall refuse ds c now U src dst,
-  c_dry_run c = true -> r_fs (run refuse ds c now U src dst) = dst.
+Theorem C08_dry_run_changes_nothing : forall refuse ds c now U keep src dst,
+  c_dry_run c = true -> r_fs (run refuse ds c now U keep src dst) = dst.
 Proof. exact dry_run_changes_nothing. Qed.
 Print Assumptions C08_dry_run_changes_nothing.
 
@@ -30,16 +30,16 @@ Proof.
     rewrite E1, E2. cbn [rev map]. rewrite <- app_assoc. split; reflexivity.
 Qed.
 
-Theorem C08_dry_run_reports_the_plan : forall refuse ds c now U src dst,
-  c_dry_run c = true -> r_refused (run refuse ds c now U src dst) = false ->
-  r_events (run refuse ds c now U src dst) =
+Theorem C08_dry_run_reports_the_plan : forall refuse ds c now U keep src dst,
+  c_dry_run c = true -> r_refused (run refuse ds c now U keep src dst) = false ->
+  r_events (run refuse ds c now U keep src dst) =
     map (fun t => (t_action t, t_path t))
-        (map (plan_entry c ds dst) src ++ (if c_delete c then plan_deletions src (filter (fun p => match dst p with Some _ => true | None => false end) U) else []))
-  /\ r_errors (run refuse ds c now U src dst) = [].
+        (map (plan_entry c ds dst) src ++ (if c_delete c then plan_deletions (keep ++ src) (filter (fun p => match dst p with Some _ => true | None => false end) U) else []))
+  /\ r_errors (run refuse ds c now U keep src dst) = [].
 Proof.
-  intros refuse ds c now U src dst Hdry Href. unfold run in *. cbv zeta in *.
+  intros refuse ds c now U keep src dst Hdry Href. unfold run in *. cbv zeta in *.
   match type of Href with context [if ?b then _ else _] => destruct b end; [cbn in Href; discriminate|].
-  destruct (exec_all_dry_events c now Hdry (map (plan_entry c ds dst) src ++ (if c_delete c then plan_deletions src (filter (fun p => match dst p with Some _ => true | None => false end) U) else [])) dst [] []) as [E1 E2].
+  destruct (exec_all_dry_events c now Hdry (map (plan_entry c ds dst) src ++ (if c_delete c then plan_deletions (keep ++ src) (filter (fun p => match dst p with Some _ => true | None => false end) U) else [])) dst [] []) as [E1 E2].
   rewrite E1, E2. split; reflexivity.
 Qed.
 Print Assumptions C08_dry_run_reports_the_plan.
